@@ -153,6 +153,9 @@ def run(ctx) -> None:
     ctx.rule(c09.rule_keystore, "C02")
     ctx.rule(c01.rule_presence, "C02")
     ctx.rule(c03.rule_key_hash, "C02")
+    from . import c17 as _c17
+    _t = _c17.build_taint(ctx)
+    ctx.rule(_c17.rule_stable_getter, _t, "C02")
     ctx.chk.assumptions = ["signature providers, hashes, HMAC, AES and CRC primitives compute their standards (C08/C09)", "not decided: that signatures verify, that chains lead to the RKTH at value level"]
 
 
